@@ -46,7 +46,7 @@ for d in sorted(os.listdir(S)):
         R9 = 'C04 C05 C06 C07 C09 C10 C12 C13 C14 C16 C17 C18'.split()
         R11 = 'C04 C05 C06 C07 C09 C10 C13 C16'.split()
         R16 = 'C02 C03 C11 C19'.split()
-        rnd = {'a': 1, 'b': 2, 'c': 3 if prop in R3 else 4, 'd': 5 if prop in R5 else 6, 'e': 7, 'f': 8, 'g': 9 if prop in R9 else 10, 'h': 11 if prop in R11 else 16 if prop in R16 else 14, 'i': 17}.get(d[-1], 18) if d[0] == 'C' else 0
+        rnd = {'a': 1, 'b': 2, 'c': 3 if prop in R3 else 4, 'd': 5 if prop in R5 else 6, 'e': 7, 'f': 8, 'g': 9 if prop in R9 else 10, 'h': 11 if prop in R11 else 16 if prop in R16 else 14, 'i': 17 if prop in R11 else 18}.get(d[-1], 19) if d[0] == 'C' else 0
         meta = {
             'id': d, 'breaks_property': prop,
             'origin': 'independent sub-agent given only the property text and a scratch worktree (round %d)' % rnd,
